@@ -287,6 +287,69 @@ def check_ctor(ctx, ci):
         ctx.violation(rule, init, 'endianness default %s' % (canon(ed) if ed is not None else None), 'an omitted endianness must defer to the class-level default', init.node.lineno, clause='e')
 
 
+def check_single_source(ctx):
+    """the spelling of the byte order ('big', 'little', 'network', 'local', None = class default)
+    is interpreted in one place, Int._compile, into is_bigendian; code elsewhere that looks at the
+    spelling re-derives the byte order and misses a spelling"""
+    repo = ctx.repo
+    rule = 'R9-byte-order-single-source'
+    ci = repo.cls('Int')
+    own = {fi.id for n, fi in ci.methods.items() if n in ('__init__', '_compile')}
+    reads = 0
+    bad = 0
+    for fi in repo.functions.values():
+        if fi.qual.split('.')[-1] in repo.absorbed:
+            continue
+        for n in ast.walk(fi.node):
+            if isinstance(n, ast.Attribute) and n.attr == 'endianness' and isinstance(n.ctx, ast.Load):
+                reads += 1
+                if fi.id in own or (fi.cls is ci and hasattr(n, '_inl')):
+                    continue
+                owner = fi
+                bad += 1
+                ctx.violation(rule, owner, stmt_text(n)[:80], 'the byte-order spelling of an integer is read outside Int._compile: only is_bigendian, which _compile resolves from it (class default, "network", "local" on this machine), says how the integer is encoded', n.lineno, clause='a', witness=True)
+    if not bad:
+        ctx.holds(rule, ci.methods['_compile'], 'the endianness attribute is read only by Int.__init__ / Int._compile (%d reads)' % reads, 'one interpretation of the spelling', ci.methods['_compile'].node.lineno, clause='a')
+    ctx.floor('reads of the endianness spelling', reads, 2)
+
+
+def check_generated_codecs(ctx):
+    """generated code moves integers between bytes and values through struct with the fields' own
+    struct codes (or through the fields' own pack / unpack): no hand-made decoding of input bytes,
+    no hand-made encoding into the buffer"""
+    repo = ctx.repo
+    rule = 'R1-generated-int-codec'
+    n_read = n_write = 0
+    for t in repo.templates():
+        if t.tree is None:
+            continue
+        parents = {}
+        for p_ in ast.walk(t.tree):
+            for c in ast.iter_child_nodes(p_):
+                parents[id(c)] = p_
+        for n in ast.walk(t.tree):
+            if isinstance(n, ast.Subscript) and isinstance(n.value, ast.Name) and n.value.id == 'raw':
+                n_read += 1
+                par = parents.get(id(n))
+                ok = isinstance(par, ast.Call) and isinstance(par.func, ast.Name) and par.func.id in ('StructUnpack',)
+                ok = ok or (isinstance(par, ast.Call) and (call_name(par) or '') == 'struct.unpack')
+                if ok:
+                    ctx.holds(rule, t.func, stmt_text(par)[:100], 'input bytes decoded by struct with the format built from the fields\' struct codes', t.lineno, clause='b')
+                else:
+                    ctx.violation(rule, t.func, stmt_text(par if par is not None else n)[:100], 'generated code takes a value out of the input bytes without struct: width, byte order and signedness of the field are not applied', t.lineno, clause='b', witness=True)
+            if isinstance(n, ast.Call) and isinstance(n.func, ast.Attribute) and n.func.attr in ('append', 'extend', 'insert') and canon(n.func.value) == 'fragments':
+                n_write += 1
+                a = n.args[-1] if n.args else None
+                ok = isinstance(a, ast.Call) and isinstance(a.func, ast.Name) and a.func.id == 'StructPack' or (isinstance(a, ast.Call) and (call_name(a) or '') == 'struct.pack')
+                if ok:
+                    ctx.holds(rule, t.func, stmt_text(n)[:100], 'values encoded by struct with the format built from the fields\' struct codes', t.lineno, clause='b')
+                else:
+                    ctx.violation(rule, t.func, stmt_text(n)[:100], 'generated code writes bytes it encoded without struct: width, byte order, signedness and range check of the field are not applied', t.lineno, clause='b', witness=True)
+    ctx.unit('generated_reads', n_read)
+    ctx.unit('generated_writes', n_write)
+    ctx.floor('generated decode / encode sites', n_read + n_write, 2)
+
+
 def check(ctx):
     repo = ctx.repo
     ci = repo.cls('Int')
@@ -299,6 +362,8 @@ def check(ctx):
     check_ctor(ctx, ci)
     from .c03 import check_struct_block
     check_struct_block(ctx)
+    check_single_source(ctx)
+    check_generated_codecs(ctx)
     ctx.floor('strategy pairs of Int', ctx.units.get('strategy_pairs', 0), 2)
     ctx.floor('endianness fold cases', sum(1 for o in ctx.obs if o.rule == 'R9-endianness-fold'), 9)
     from ..model import check_conf_plumbing
